@@ -604,4 +604,122 @@ def rule_backend(ctx):
                         "the pairwise implementation behind the front end keeps its conventions", lambda i: True, 9)
 
 
-RULES = [rule_backend, rule_blanks, rule_ellipsis, rule_implicit, rule_interleaved, rule_single, rule_canon, rule_ncon]
+def rule_expand(ctx):
+    """(engine E9) The rewriting of an equation with ellipses is a pure function of (equation, shapes).  Its source —
+    with `check_ellipsis`, `find_output_str` and `get_symbol` — is evaluated by the engine's mini-evaluator on every
+    equation of a bounded family (one to three operands, named parts over two symbols, an ellipsis of rank 0–2 at
+    any position or none, implicit and explicit outputs) and the result is compared with numpy's rule: every
+    operand's '...' becomes the *last* k of K fresh symbols, the fresh symbols are distinct and none of them is
+    used in the equation, an explicit output's '...' becomes all K, an implicit output is the K fresh symbols
+    followed by the sorted named symbols that appear once."""
+    import itertools
+
+    from ..engine.minieval import Mini, NoEval, Raised
+
+    r = RuleResult("C12-EXPAND", "ellipsis expansion agrees with numpy's rule on a bounded family", 1)
+    m = ctx.p.module(C.UTILS)
+    names = ("parse_equation_ellipses", "check_ellipsis", "find_output_str", "get_symbol")
+    fs = {g.name: g.node for g in m.all_funcs if g.cls is None and g.name in names}
+    C.require(len(fs) == len(names), "ellipsis helpers not found in utils.py")
+    consts = {}
+    for nm, vals in m.assigns.items():
+        if len(vals) == 1 and isinstance(vals[0], ast.Constant) and isinstance(vals[0].value, (str, int)):
+            consts[nm] = vals[0].value
+    f = ctx.p.func(C.UTILS, "parse_equation_ellipses")
+    k = ctx.key(f, "C12-EXPAND")
+    named = ["", "a", "b", "ab", "ba", "aa"]
+    ops = []
+    for nm in named:
+        ops.append((nm, None, 0))
+        for pos in range(len(nm) + 1):
+            for kk in (0, 1, 2):
+                ops.append((nm, pos, kk))
+    step = 1 if ctx.tier == "thorough" else 6
+    bad = None
+    n_eq = 0
+    idx = 0
+    try:
+        for nops in (1, 2, 3):
+            pool = ops if nops < 3 else [o for o in ops if len(o[0]) <= 1]
+            for combo in itertools.product(pool, repeat=nops):
+                if not any(o[1] is not None for o in combo):
+                    continue
+                idx += 1
+                if idx % step:
+                    continue
+                terms = [(nm if pos is None else nm[:pos] + "..." + nm[pos:]) for nm, pos, kk in combo]
+                shapes = tuple(tuple([2] * (len(nm) + (kk if pos is not None else 0))) for nm, pos, kk in combo)
+                K = max(kk for nm, pos, kk in combo if pos is not None)
+                lhs = ",".join(terms)
+                allnamed = "".join(nm for nm, _, _ in combo)
+                once = "".join(c for c in sorted(set(allnamed)) if allnamed.count(c) == 1)
+                for out in (None, "..." + once, once + "..."):
+                    eq = lhs if out is None else lhs + "->" + out
+                    n_eq += 1
+                    try:
+                        res = Mini(fs, budget=40000, consts=consts).call(f.node, [eq, shapes, False])
+                        ins, o = res
+                        parts = ins.split(",")
+                        if len(parts) != nops:
+                            raise _ExpErr(f"{len(parts)} operands come back")
+                        fresh_full = None
+                        ell = []
+                        for (nm, pos, kk), part in zip(combo, parts):
+                            if pos is None:
+                                if part != nm:
+                                    raise _ExpErr(f"operand `{nm}` without '...' is rewritten to `{part}`")
+                                ell.append("")
+                                continue
+                            if len(part) != len(nm) + kk or part[:pos] != nm[:pos] or part[pos + kk:] != nm[pos:]:
+                                raise _ExpErr(f"operand `{nm[:pos]}...{nm[pos:]}` of rank {len(nm) + kk} becomes `{part}`")
+                            ell.append(part[pos:pos + kk])
+                        full = max(ell, key=len)
+                        if len(full) != K or len(set(full)) != K or set(full) & set(allnamed):
+                            raise _ExpErr(f"the symbols `{full}` chosen for '...' are not {K} distinct symbols unused in the equation")
+                        for e_ in ell:
+                            if e_ != full[K - len(e_):]:
+                                raise _ExpErr(f"an operand's '...' becomes `{e_}`, the last {len(e_)} of `{full}` are `{full[K - len(e_):]}` (right alignment)")
+                        want = full + once if out is None else out.replace("...", full)
+                        if o != want:
+                            raise _ExpErr(f"the output is `{o}`, numpy's is `{want}`")
+                    except _ExpErr as e:
+                        bad = bad or (eq, shapes, str(e))
+                    except Raised as e:
+                        bad = bad or (eq, shapes, f"raises ({e.text})")
+                    except NoEval:
+                        raise
+                    except Exception as e:
+                        bad = bad or (eq, shapes, f"raises ({type(e).__name__}: {e})")
+        # equations without '...': operands unchanged, explicit output kept, implicit output = sorted singles
+        for nops in (1, 2, 3):
+            for combo in itertools.product(("a", "ab", "ba", "bc", "aa", ""), repeat=nops):
+                lhs = ",".join(combo)
+                alln = "".join(combo)
+                once = "".join(c for c in sorted(set(alln)) if alln.count(c) == 1)
+                for out in (None, once[::-1]):
+                    eq = lhs if out is None else lhs + "->" + out
+                    n_eq += 1
+                    try:
+                        ins, o = Mini(fs, budget=40000, consts=consts).call(f.node, [eq, tuple(tuple([2] * len(t)) for t in combo), False])
+                        if ins != lhs or o != (once if out is None else out):
+                            bad = bad or (eq, [(2,) * len(t) for t in combo], f"rewritten to `{ins}->{o}`")
+                    except Raised as e:
+                        bad = bad or (eq, [(2,) * len(t) for t in combo], f"raises ({e.text})")
+                    except NoEval:
+                        raise
+                    except Exception as e:
+                        bad = bad or (eq, [(2,) * len(t) for t in combo], f"raises ({type(e).__name__}: {e})")
+    except NoEval as e:
+        raise AnalysisError(f"parse_equation_ellipses: not evaluable by the mini-evaluator ({e})")
+    if bad:
+        r.violation(k, f.loc, f"for `{bad[0]}` with operand ranks {[len(s_) for s_ in bad[1]]}: {bad[2]}")
+    else:
+        r.ok(k, f.loc, f"{n_eq} equations with ellipses: expansion as numpy's")
+    return r
+
+
+class _ExpErr(Exception):
+    pass
+
+
+RULES = [rule_expand, rule_backend, rule_blanks, rule_ellipsis, rule_implicit, rule_interleaved, rule_single, rule_canon, rule_ncon]
